@@ -15,6 +15,9 @@ pub fn vassume(c : bool) { kani::assume(c); }
 #[path = "../../shared/prestate.rs"]
 pub mod prestate;
 #[cfg(kani)]
+#[path = "../../shared/sortcase.rs"]
+pub mod sortcase;
+#[cfg(kani)]
 pub mod symsys;
 #[cfg(kani)]
 pub mod fixture;
